@@ -79,3 +79,35 @@ fn probe_array_slice_n3() {
     }
     std::mem::forget(arr);
 }
+
+#[kani::proof]
+#[kani::unwind(5)]
+fn probe_array_slice_famR() {
+    const N: usize = 3;
+    let mut arr = mk_fixed::<N>();
+    let r: usize = kani::any();
+    kani::assume(r <= 5);
+    arr.slice(Some(1), Some(r));
+    let items = arr.items.as_ref().unwrap();
+    if r >= 1 && r <= N {
+        assert!(items.len() == r - 1, "BSV: slice length");
+    }
+    kani::cover!(r == 0);
+    kani::cover!(r == 5);
+    std::mem::forget(arr);
+}
+
+#[kani::proof]
+#[kani::unwind(5)]
+fn probe_array_slice_famL() {
+    const N: usize = 3;
+    let mut arr = mk_fixed::<N>();
+    let l: usize = kani::any();
+    kani::assume(l <= 5);
+    arr.slice(Some(l), None);
+    let items = arr.items.as_ref().unwrap();
+    if l <= N {
+        assert!(items.len() == N - l, "BSV: slice length");
+    }
+    std::mem::forget(arr);
+}
